@@ -208,12 +208,13 @@ def read_channel(ch, how='slice'):
     raise ValueError(how)
 
 
-def observe(data, lazy=False, raw_timestamps=True, index=None, daqmx=False):
+def observe(data, lazy=False, raw_timestamps=True, index=None, daqmx=False, memmap_dir=None):
     """Structure + properties + data of a TDMS byte string, through the public API."""
     def run():
         stream = io.BytesIO(data)
-        tf = TdmsFile.open(stream, raw_timestamps=raw_timestamps) if lazy else \
-            TdmsFile.read(stream, raw_timestamps=raw_timestamps)
+        kw = {'memmap_dir': memmap_dir} if memmap_dir else {}
+        tf = TdmsFile.open(stream, raw_timestamps=raw_timestamps, **kw) if lazy else \
+            TdmsFile.read(stream, raw_timestamps=raw_timestamps, **kw)
         try:
             obs = {'groups': [], 'props': {}, 'data': {}, 'len': {}}
             obs['props']['/'] = [(k, norm_prop(v)) for k, v in tf.properties.items()]
